@@ -1189,6 +1189,11 @@ class Evaluator:
                 stp = self.expr(n.slice.step, env, fr) if n.slice.step else None
                 return _slice(base, lo, hi, stp)
             k = self.expr(n.slice, env, fr)
+            if isinstance(base, Obj) and base.ci is not None and base.cls == 'PixCoord' and is_num(k) \
+                    and isinstance(base.fields.get('x'), Tup) and isinstance(base.fields.get('y'), Tup):
+                # an element of a PixCoord array with concrete components (PixCoord.__getitem__ indexes x and y alike;
+                # that it does is decided by C20.R2)
+                return Obj('PixCoord', {'x': _index(base.fields['x'], k), 'y': _index(base.fields['y'], k)}, None, base.ci)
             return _index(base, k)
         if isinstance(n, ast.Slice):
             lo = self.expr(n.lower, env, fr) if n.lower else Const(None)
@@ -2173,6 +2178,10 @@ def _fold_isinstance(model, v, t):
         sub = {'Angle': {'Angle', 'Quantity'}, 'Quantity': {'Quantity'}, 'SkyCoord': {'SkyCoord'}}.get(made)
         if sub is not None and all(k == 'ext' for k, c in names):
             return any(c in sub for k, c in names)
+    if isinstance(v, App) and v.name == 'getitem' and len(v.args) == 2 and isinstance(v.args[0], App) \
+            and v.args[0].name.endswith('.SkyCoord') and is_num(v.args[1]):
+        # an element of a SkyCoord array is a SkyCoord
+        return _fold_isinstance(model, v.args[0], t)
     if all(k == 'ext' for k, c in names):
         # values whose Python type the term itself fixes
         ty = None
